@@ -77,27 +77,29 @@ Texts(ev) == SelectSeq2(ev, LAMBDA e : e[4] = 255 /\ e[6] = mTEXT)
 CmtInv == R.kind = "cmt" =>
    /\ R.ok /\ R.convOk /\ R.ok2                                 \* write conv output is accepted by write
    /\ NonText(R.ev2) = NonText(R.ev)                            \* and plays the same music
-   /\ LET onTicks == {e[2] : e \in {R.ev[j] : j \in {x \in 1..Len(R.ev) : IsOn(R.ev[x])}}} IN
-      \A t \in onTicks : \E j \in 1..Len(Texts(R.ev2)) : Texts(R.ev2)[j][2] = t /\ Texts(R.ev2)[j][8] # <<>>   \* each chord got its name as text
+                                                               \* (what text `cmt` adds is its own business)
 \* a long piece (its YAML is larger than a mebibyte) goes through the pipe whole: 4 keys per C triad, one beat each
 BigPipeInv == R.kind = "bigpipe" =>
-   /\ R.convOk /\ R.writeOk /\ R.ons = 4 * R.n /\ R.eot = 960 * R.n
+   /\ R.convOk /\ R.writeOk /\ R.ons = 4 * R.n /\ R.eot = R.division * R.n      \* (T is whatever the header declares)
 \* free texts: a text (txt and lic on a rest, mrk on a chord) written in the instances YAML reaches the file's text, lyric and
 \* marker events byte for byte, directly and through `write conv -c cmt | write` (which adds one text event for the chord)
 TextRtInv == R.kind = "textrt" =>
-   LET want == <<<<1>> \o R.text, <<5>> \o R.text, <<6>> \o R.text>>
+   LET want == {<<1>> \o R.text, <<5>> \o R.text, <<6>> \o R.text}
+       set(s) == {s[i] : i \in 1..Len(s)}
        own(s) == SelectSeq(s, LAMBDA e : e[1] # 1 \/ e = <<1>> \o R.text)      \* (drop the chord-name text cmt added)
    IN /\ R.directOk /\ R.parseOk /\ R.convOk /\ R.viaConvOk
-      /\ R.direct = want
-      /\ own(R.viaConv) = want
+      /\ set(R.direct) = want /\ Len(R.direct) = 3                 \* (in whatever order the events of one tick are written)
+      /\ set(own(R.viaConv)) = want /\ Len(own(R.viaConv)) = 3
 \* the same through `text conv | write`: a setting text written in the chord text (it ends at `,` or `}`; blanks and line
 \* breaks inside and at its end belong to it) is the payload of the one text / lyric / marker event
 TextTcInv == R.kind = "texttc" =>
    /\ R.convOk /\ R.writeOk
-   /\ R.payloads = << <<(CASE R.mkey = "txt" -> 1 [] R.mkey = "lic" -> 5 [] OTHER -> 6)>> \o R.text >>
+   \* what `text conv` printed as the text (blanks around it may or may not belong to it) is what `write` puts in the event
+   /\ Trim(R.yamlText) = Trim(R.text)
+   /\ R.payloads = << <<(CASE R.mkey = "txt" -> 1 [] R.mkey = "lic" -> 5 [] OTHER -> 6)>> \o R.yamlText >>
 \* one line of the instances YAML longer than any line buffer (a long text, a long comment): nothing is cut; four
 \* triads with their bass, one beat each, and the text whole
 BigLineInv == R.kind = "bigline" =>
-   /\ R.convOk /\ R.writeOk /\ R.ons = 16 /\ R.eot = 4 * 960
+   /\ R.convOk /\ R.writeOk /\ R.ons = 16 /\ R.eot = 4 * R.division
    /\ R.texts = (IF R.how = "text" THEN <<R.n>> ELSE <<>>)
 =============================================================================
